@@ -68,6 +68,14 @@ func (m c13Macro) subst(args []string) string {
 	return "(" + body + ")"
 }
 
+// c13Contexts are syntactic positions (one per child slot of every node kind) a macro call or a template hole is put in.
+var c13Contexts = []string{
+	"-(%s)", "!(%s)", "(%s) + 1", "1 - (%s)", "arr[%s]", "arr[%s:]", "arr[0:%s]", "arr[%s:2]", "(%s)[0]", "(%s)[1:]", "[0, %s]", "{%s: 1}", "{1: %s}", "{\"k\": %s}.k",
+	"if %s {1} else {2}", "if true {%s}", "if false {1} else {%s}", "if false {1} else if %s {2}", "for zk = %s {break}", "for zk = 0:%s {break}", "for zk = %s:3 {break}", "for %s {break}", "for 2 {%s}",
+	"func() {return %s}()", "zx => %s", "(zx => zx)(%s)", "len([%s])", "mm[%s] = 1", "mm.k = %s", "mm[0] = %s", "zv = %s", "zv := %s", "catch(%s)", "(%s).k", "arr[%s][0]", "%s == 1 && true", "false || %s",
+	"del(mm[%s])", "println(1, %s)", "[1, 2, 3][%s:][0]", "(%s)(1)", "first([%s])", "{\"a\": [%s]}",
+}
+
 // genTemplate makes an expression over hole0..holeK-1 (and globals a, b, c).
 func genTemplate(c *fw.Ctx, k int) string {
 	g := gt.NewGen(c.Rng)
@@ -80,7 +88,16 @@ func genTemplate(c *fw.Ctx, k int) string {
 	g.DeclareRO("a", gt.TInt)
 	g.DeclareRO("b", gt.TInt)
 	var n *gt.Node
-	switch c.Rng.IntN(8) {
+	switch c.Rng.IntN(11) {
+	case 8, 9, 10: // a hole in one given child slot
+		if k > 0 {
+			ctx := c13Contexts[c.Rng.IntN(len(c13Contexts))]
+			if strings.HasPrefix(ctx, "zv") || strings.HasPrefix(ctx, "mm") || strings.HasPrefix(ctx, "del(") || strings.HasPrefix(ctx, "for ") {
+				ctx = "arr[%s:]" // templates are expressions
+			}
+			return fmt.Sprintf(ctx, fmt.Sprintf("hole%d", c.Rng.IntN(k)))
+		}
+		n = g.Expr(gt.TInt, 2)
 	case 0: // callee position
 		if k > 0 {
 			return fmt.Sprintf("hole0(%s)", (&gt.Renderer{}).Expr(g.Expr(gt.TInt, 1), 2))
@@ -148,10 +165,14 @@ func (p c13) session(c *fw.Ctx) (inputs, expected []string, calls int) {
 		for j := range ps {
 			ps[j] = fmt.Sprintf("q%d", j)
 		}
+		// a parameter may be named like a macro, an extension function or a global: it is still just a parameter
+		if k > 0 && r.IntN(3) == 0 {
+			ps[r.IntN(k)] = []string{"mac0", "mac1", "mac2", "max", "min", "sprintf", "a", "arr", "mm"}[r.IntN(9)]
+		}
 		macros[i] = c13Macro{name: fmt.Sprintf("mac%d", i), params: ps, tmpl: genTemplate(c, k)}
 	}
 	nIn := 1 + r.IntN(4)
-	curIn, curExp := []string{"a = 3; b = 4"}, []string{"a = 3; b = 4"}
+	curIn, curExp := []string{"a = 3; b = 4; arr = [1, 2, 3, 4]; mm = {\"k\": 1}"}, []string{"a = 3; b = 4; arr = [1, 2, 3, 4]; mm = {\"k\": 1}"}
 	defined := 0
 	flush := func() {
 		inputs = append(inputs, strings.Join(curIn, ";\n"))
@@ -178,7 +199,11 @@ func (p c13) session(c *fw.Ctx) (inputs, expected []string, calls int) {
 		perIn := 1 + uses/nIn
 		for u := 0; u < perIn; u++ {
 			cs, es := call(0)
-			switch r.IntN(7) {
+			switch r.IntN(11) {
+			case 7, 8, 9, 10: // one given child slot
+				ctx := c13Contexts[r.IntN(len(c13Contexts))]
+				curIn = append(curIn, fmt.Sprintf(ctx, cs))
+				curExp = append(curExp, fmt.Sprintf(ctx, es))
 			case 0:
 				curIn = append(curIn, fmt.Sprintf("r%d = %s", u, cs))
 				curExp = append(curExp, fmt.Sprintf("r%d = %s", u, es))
